@@ -676,6 +676,17 @@ class World:
                     pair = [h, r.choice(anc)]
                     r.shuffle(pair)
                     script['calls'] += [['removeDescr', pair[0]], ['removeDescr', pair[1]]]
+            elif z < 0.95 and templates:
+                # several children of one parent are created / removed in one transaction (the parent itself is not touched)
+                tmpl = r.choice(templates)
+                par = self.mdib.descriptions.handle.get_one(tmpl).parent_handle
+                sibs = [x for x in templates if self.mdib.descriptions.handle.get_one(x).parent_handle == par]
+                for _k in range(r.choice([2, 2, 3])):
+                    if r.random() < 0.6:
+                        script['calls'].append(['addDescr', f'new{self.new_n}', r.choice(sibs), r.random() < 0.85])
+                        self.new_n += 1
+                    else:
+                        script['calls'].append(['removeDescr', r.choice(sibs)])
             elif z < 0.965 and templates:
                 # a node is removed and something is created below it (or below one of its descendants), in either order: the
                 # commit-time consistency check has to refuse the transaction as a whole
